@@ -15,7 +15,8 @@ RULE = (
     "Hypothesis draws an encrypted VMX: outer and inner configuration entries (keys any case, values printable incl. '=', '#', "
     "UTF-8), passphrase (any unicode), cipher AES-128/192/256 x MAC HMAC-SHA-1 / HMAC-SHA-1-128 / HMAC-SHA-256 x KDF "
     "PBKDF2-HMAC-SHA-1/256, rounds 1..20000, salt 8..32 bytes, inner content length incl. < 16 bytes and multiples of 16, 1..3 "
-    "pairs in the locator list (decoy pairs with other passphrases before/after the real one), ids needing URL quoting; all 18 "
+    "pairs in the locator list (decoy pairs with other passphrases before/after the real one, optionally with salts under which they "
+    "decrypt to chance-valid padding with the real passphrase), ids needing URL quoting; all 18 "
     "cipher x MAC x KDF combinations are also enumerated exhaustively. The builder is the inverse operation. Oracles: (a) "
     "unlock with the passphrase -> attr == outer + inner entries; (b) any other passphrase (incl. a decoy's) -> raises and attr "
     "unchanged; (c) every single-byte alteration (every position of IV, ciphertext, MAC of the wrapped key and of "
@@ -70,6 +71,8 @@ def vmx_spec(draw, tier, combo=None):
     if combo:
         pairs[correct].update(cipher=combo[0], mac=combo[1], kdf=combo[2])
     data_cipher = draw(st.sampled_from(list(bx.KEY_SIZES)))
+    # decoy pairs in front of the real one that decrypt, under the real passphrase, to bytes ending in valid padding by chance
+    chance_padding = correct > 0 and draw(st.booleans())
     inner = draw(st.one_of(entries(2, 6), entries(0, 1)))
     spec = {
         "outer": draw(entries(0, 4)), "inner": inner, "pairs": pairs, "correct": correct, "data_cipher": data_cipher,
@@ -77,7 +80,7 @@ def vmx_spec(draw, tier, combo=None):
         "data_iv": draw(st.binary(min_size=16, max_size=16)).hex(),
         "inner_style": {"crlf": draw(st.booleans()), "sep": draw(st.sampled_from([" = ", "=", " =", "= "])), "quote": draw(st.booleans())},
         "outer_style": {"crlf": draw(st.booleans()), "sep": draw(st.sampled_from([" = ", "="])), "quote": True},
-        "shuffle_outer": draw(st.booleans()),
+        "shuffle_outer": draw(st.booleans()), "chance_padding": chance_padding,
         "wrong": draw(st.lists(st.text(max_size=8), min_size=1, max_size=2)),
         "xors": draw(st.lists(st.integers(1, 255), min_size=1, max_size=2)),
     }
@@ -136,8 +139,19 @@ def check(spec) -> Outcome:
         out.fail(f"mismatch|unlock|{tag}", f"attr after unlock differs: {diff}")
         return out
 
-    # (b) wrong passphrases (incl. decoys' own passphrases)
+    # (a') the same object afterwards: a wrong passphrase still raises and changes nothing, the right one still works
     pw = p["passphrase"]
+    snapshot = copy.deepcopy(v.attr)
+    for w in [spec["wrong"][0] if spec["wrong"][0] != pw else pw + "x", pw]:
+        _r, err = lib(v.unlock_with_phrase, w)
+        if w != pw and err is None:
+            out.fail(f"accepted|wrong-passphrase-after-unlock|{tag}", f"a second unlock_with_phrase({w!r}) on the unlocked object did not raise")
+        if w == pw and err is not None:
+            out.fail(err.sig("unlock-again|" + tag), f"a second unlock with the correct passphrase raised {err.describe()}")
+        if v.attr != snapshot:
+            out.fail(f"mutated|second-unlock|{tag}", "attr changed by a further unlock call on the unlocked object")
+
+    # (b) wrong passphrases (incl. decoys' own passphrases)
     near = [pw + " ", " " + pw, pw + "\n", pw.strip(), pw.upper(), pw.lower(), pw[:-1], pw + pw[-1:], pw.replace("#", "")]
     wrong = [w for w in dict.fromkeys(spec["wrong"] + near) if w != pw]
     wrong += [q["passphrase"] for i, q in enumerate(spec["pairs"]) if i != spec["correct"]]
